@@ -510,4 +510,78 @@ theorem rtqu_docSideXB (env : Env) (items : List DocItem) (dm : DefineMode) (h :
   subst hseg
   exact rtqu_extBM env dm' sg (List.all_eq_true.1 this sg hsg)
 
+/-! ### components mode under duplicate mode `reference`: the first occurrence of a name (`rtcr_` prefix) -/
+
+theorem rtcr_resolveReference_first (env : Env) (container : String) (inherit : Nat) (existing : List (Str × Modifiers))
+    (name : Str) (mods : Modifiers) (loc modLoc : Span) (s : Col α) (hm : plainMods mods)
+    (hd : s.defineMode = .components) (hdup : s.duplicateMode = .reference)
+    (hnone : sameNameIdx env existing name = none) :
+    resolveReference env container inherit existing name mods loc modLoc s = ((mods, none), s) := by
+  unfold resolveReference
+  obtain ⟨h1, h2⟩ := hm
+  simp [bind, pure, StateT.bind, StateT.pure, get, getThe, MonadStateOf.get, StateT.get, h1, h2, hd, hdup, hnone]
+
+theorem rtcr_ingredientA_first (env : Env) (input : Str) (li : Loc (PIngredient α)) (s : Col α) (h : IngrSimple li)
+    (hd : s.defineMode = .components) (hdup : s.duplicateMode = .reference)
+    (hnone : sameNameIdx env (s.ingredients.toList.map (fun x => (x.name, x.modifiers))) (ingrOf env li).name = none) :
+    ingredientA env input li s =
+      (s.ingredients.size, { s with locIngr := s.locIngr.push li, ingredients := s.ingredients.push (ingrOfC env li) }) := by
+  unfold ingredientA
+  simp only [bind, StateT.bind, rta_optQuantityOf env _ true s h.lock, get, getThe, MonadStateOf.get, StateT.get, pure,
+    StateT.pure, hd]
+  unfold ingrBuild
+  simp only [h.inter, bind, StateT.bind]
+  unfold ingrRegular
+  simp only [bind, StateT.bind, get, getThe, MonadStateOf.get, StateT.get, pure, StateT.pure]
+  rw [rtcr_resolveReference_first env _ _ _ _ _ _ _ s h.mods hd hdup ?_]
+  · simp only [modify, modifyGet, MonadStateOf.modifyGet, StateT.modifyGet, Array.size_push, Nat.add_sub_cancel,
+      pure, StateT.pure, bind, StateT.bind]
+    have hne : (DefineMode.components != DefineMode.components) = false := by decide
+    simp only [ingrOfC, ingrOf, hne, hd]
+    rfl
+  · exact hnone
+
+theorem rtcr_cookwareA_first (env : Env) (input : Str) (lc : Loc (PCookware α)) (s : Col α) (h : CwSimple lc)
+    (hd : s.defineMode = .components) (hdup : s.duplicateMode = .reference)
+    (hnone : sameNameIdx env (s.cookware.toList.map (fun x => (x.name, x.modifiers))) (cwOf env lc).name = none) :
+    cookwareA env input lc s =
+      (s.cookware.size, { s with locCw := s.locCw.push lc, cookware := s.cookware.push (cwOfC env lc) }) := by
+  unfold cookwareA
+  simp only [bind, StateT.bind, rta_optValueOf env _ s h.lock, get, getThe, MonadStateOf.get, StateT.get, pure,
+    StateT.pure, hd]
+  unfold cwBuild
+  simp only [bind, StateT.bind]
+  unfold cwResolve
+  simp only [bind, StateT.bind, get, getThe, MonadStateOf.get, StateT.get, pure, StateT.pure]
+  rw [rtcr_resolveReference_first env _ _ _ _ _ _ _ s h.mods hd hdup ?_]
+  · simp only [modify, modifyGet, MonadStateOf.modifyGet, StateT.modifyGet, Array.size_push, Nat.add_sub_cancel,
+      pure, StateT.pure, bind, StateT.bind]
+    have hne : (DefineMode.components != DefineMode.components) = false := by decide
+    simp only [cwOfC, cwOf, hne, hd]
+  · exact hnone
+
+theorem rtcr_proc_ingredient_first (env : Env) (input : Str) (li : Loc (PIngredient α)) (s : Col α) (items : List Item)
+    (h : IngrSimple li) (hd : s.defineMode = .components) (hdup : s.duplicateMode = .reference)
+    (hnone : sameNameIdx env (s.ingredients.toList.map (fun x => (x.name, x.modifiers))) (ingrOf env li).name = none)
+    (hb : s.block = some (.step items)) :
+    (processEvent env input (.ingredient li) s).2 =
+      { s with locIngr := s.locIngr.push li, ingredients := s.ingredients.push (ingrOfC env li),
+               block := some (.step (items ++ [.ingredient s.ingredients.size])) } := by
+  have e : processEvent env input (.ingredient li) s = inBlockComponent env input (.ingredient li) s := rfl
+  rw [e, rta_inBlock_step env input _ s items hb]
+  simp only [inStepComponent, bind, StateT.bind, rtcr_ingredientA_first env input li s h hd hdup hnone]
+  rw [rta_pushItem _ { s with locIngr := s.locIngr.push li, ingredients := s.ingredients.push (ingrOfC env li) } items hb]
+
+theorem rtcr_proc_cookware_first (env : Env) (input : Str) (lc : Loc (PCookware α)) (s : Col α) (items : List Item)
+    (h : CwSimple lc) (hd : s.defineMode = .components) (hdup : s.duplicateMode = .reference)
+    (hnone : sameNameIdx env (s.cookware.toList.map (fun x => (x.name, x.modifiers))) (cwOf env lc).name = none)
+    (hb : s.block = some (.step items)) :
+    (processEvent env input (.cookware lc) s).2 =
+      { s with locCw := s.locCw.push lc, cookware := s.cookware.push (cwOfC env lc),
+               block := some (.step (items ++ [.cookware s.cookware.size])) } := by
+  have e : processEvent env input (.cookware lc) s = inBlockComponent env input (.cookware lc) s := rfl
+  rw [e, rta_inBlock_step env input _ s items hb]
+  simp only [inStepComponent, bind, StateT.bind, rtcr_cookwareA_first env input lc s h hd hdup hnone]
+  rw [rta_pushItem _ { s with locCw := s.locCw.push lc, cookware := s.cookware.push (cwOfC env lc) } items hb]
+
 end Cook
